@@ -40,6 +40,7 @@ def model_check(chk, quick, name="Bodies laws"):
 
 # ------------------------------------------------------------------------------------------------
 def make_rigid(kind3, e):
+    """(the rigid grids are likewise built in another pose: see the end of this function)"""
     """real body + grid for a rigid case; kind3 in {cylinder, sphere, plane} (3-D) or 'cyl2d'."""
     import elastica as ea
     import sopht.simulator as sps
@@ -63,7 +64,15 @@ def make_rigid(kind3, e):
     body.director_collection[:, :, 0] = Q
     body.velocity_collection[:, 0] = V if kind3 != "cyl2d" else np.array([V[0], V[1], 0.0])
     body.omega_collection[:, 0] = W if kind3 != "cyl2d" else np.array([0.0, 0.0, W[2]])
+    # build the grid while the body is in ANOTHER pose / state, then load the case's state
+    keep = {k: getattr(body, k).copy() for k in ("position_collection", "velocity_collection", "director_collection", "omega_collection")}
+    body.position_collection[...] = keep["position_collection"] + 0.7
+    body.velocity_collection[...] = -2.0 * keep["velocity_collection"] + 1.0
+    body.omega_collection[...] = keep["omega_collection"] + 1.5
+    body.director_collection[:, :, 0] = np.eye(3) if not np.allclose(Q, np.eye(3)) else np.array([[0.0, 1.0, 0.0], [-1.0, 0.0, 0.0], [0.0, 0.0, 1.0]])
     grid = grid_cls(grid_dim=D, rigid_body=body, **kw)
+    for k, v in keep.items():
+        getattr(body, k)[...] = v
     if kind3 == "sphere":
         grid.global_frame_relative_position_field[:, :3] = Q.T @ arms
     else:
@@ -92,6 +101,22 @@ def make_rod(e):
 
 
 def make_rod_grid(kind, rod, e):
+    """The grid is built while the rod is in ANOTHER state (shrunk radii with the same ratios, shifted nodes, other directors and
+    velocities); the case's state is loaded afterwards.  Anything a grid caches at construction instead of reading from the
+    rod at refresh time is therefore stale when the fields are computed."""
+    keep = {k: getattr(rod, k).copy() for k in ("position_collection", "velocity_collection", "director_collection", "omega_collection", "radius", "tangents", "lengths")}
+    rod.radius[...] = 0.8 * keep["radius"]
+    rod.position_collection[...] = keep["position_collection"] * 1.1 + 0.3
+    rod.velocity_collection[...] = -keep["velocity_collection"] + 1.0
+    rod.omega_collection[...] = 0.5 * keep["omega_collection"] - 1.0
+    rod.director_collection[...] = keep["director_collection"][[1, 2, 0]]      # another proper rotation (cyclic row permutation)
+    grid, D = _make_rod_grid(kind, rod, e)
+    for k, v in keep.items():
+        getattr(rod, k)[...] = v
+    return grid, D
+
+
+def _make_rod_grid(kind, rod, e):
     import sopht.simulator as sps
 
     if kind == "rod_elem":
